@@ -1,1 +1,12 @@
 import PeptVerif.Props.C18
+#print axioms Pept.C18.condenseToMassAnn_eq
+#print axioms Pept.C18.condense_residues
+#print axioms Pept.C18.numeric_toMods
+#print axioms Pept.C18.condense_numeric_only
+#print axioms Pept.C18.condense_unmodified_id
+#print axioms Pept.C18.shiftsFrom_mem
+#print axioms Pept.C18.condense_positions
+#print axioms Pept.C18.condense_mass
+#print axioms Pept.C18.condense_mass_output
+#print axioms Pept.C18.condense_mass_k
+#print axioms Pept.C18.condense_mass_cutoff_witness
